@@ -128,8 +128,8 @@ impl Scenario for C18 {
     const LEVEL: &'static str = "exploration";
     fn runs(tier: Tier) -> u64 {
         match tier {
-            Tier::Quick => 300_000,
-            Tier::Thorough => 6_000_000,
+            Tier::Quick => 150_000,
+            Tier::Thorough => 3_000_000,
         }
     }
     fn rule() -> &'static str {
@@ -446,6 +446,10 @@ impl Scenario for C18 {
         }?;
         obs.event(&format!("{}:{}", c.ty, mode));
         Ok(())
+    }
+
+    fn hash_sensitive() -> bool {
+        true
     }
 
     fn shrink(c: &Case) -> Vec<Case> {
